@@ -74,6 +74,8 @@ def erfinv_grid():
             if 0 < v < 1:
                 xs += [v, -v]
     xs += [math.nextafter(1.0, 0.0), -math.nextafter(1.0, 0.0), 0.0]
+    for k in (2, 3, 4, 5, 7, 8, 16, 31, 32, 33, 64, 1000, 2 ** 20, 2 ** 26, 2 ** 27):          # 1 - k ulp
+        xs += [1.0 - k * 2.0 ** -53, -(1.0 - k * 2.0 ** -53)]
     return xs
 
 
@@ -84,6 +86,7 @@ def gamma_grid():
     for i in range(1, 30):
         xs += [math.nextafter(float(i), 0.0), math.nextafter(float(i), 100.0), i + 1e-9, i + 0.5]
     xs += [1e-3, 1e-4, 1e-6, 1e-9]
+    xs += [10.0 ** -k for k in (12, 15, 20, 50, 100, 200, 300, 307)] + [3.7e-155, 2.5e-308, 6e-309]   # 1 / x up to 1.7e308
     return xs
 
 
@@ -256,7 +259,7 @@ ERF_INTS = [0, 1, 2, 3, 4, 5, 6, 7, 10, 11, 12, 13, 14, 15, 16, 31, 32, 100, 127
 class C18(Prop):
     id = "C18"
     anchored = ["src/pewlib/process/convolve.py"]
-    cases = {"quick": 420, "thorough": 8400}
+    cases = {"quick": 540, "thorough": 10800}
     rule = ("PARTIAL EVIDENCE. convolve: signals of length m..40 (dyadic values, incl. constant signals), kernels of every "
             "length 1..9 (odd and even; sum-to-one and arbitrary signed), compared exactly with the Lean mechanism and with the "
             "Lean specification (length, interior = ordinary convolution, constants reproduced). deconvolve: full "
@@ -963,6 +966,9 @@ class C18(Prop):
                 continue
             for k, band in enumerate(["subnormal"] * 4 + ["tiny-normal", "tiny-normal", "threshold", "all-zero"]):
                 yield self.gen_kernel_tail(random.Random(f"C18-tail-{name}-{k}"), name, band)
+        # an intermediate value overflows (x ** (-alpha - 1) = inf at the first axis point, times exp(-beta / x) = 0):
+        # undetermined, what pewlib returns is recorded (notes/EC18.md, observation O1)
+        yield {"kind": "kernel", "name": "inversegamma", "size": 3, "args": [51.0, 1.0], "scale": 1.0, "shift": 1e-6}
         # magnitudes for the rational generator: supports and axes of the order 1e+-100
         for mag in (1e100, 1e-100, 1e140, 1e-140):
             yield K("triangular", 9, [-3.0 * mag, 2.0 * mag], mag, 0.0)
@@ -1385,13 +1391,13 @@ class C18(Prop):
         mdl = {"length": len(model), "values": model if term else "not compared"}
         return outcome(impl, mdl, {}, spec_ok=True, model_ok=model_ok, hyp=False, features=feats)
 
-    def special(self, case, ctx, name, impl_fn, true_fn, ok_fn, model_op=None, model_rel=1e-10, model_max=1e6, model_abs=1e-300):
+    def special(self, case, ctx, name, impl_fn, true_fn, ok_fn, model_op=None, model_rel=1e-10, model_max=1e6, model_abs=1e-300, model_min=1e-30):
         xs = [float(x) for x in case["xs"]]
         vals = impl_fn(xs)
         bad, badm = [], []
         exact = {}
         if model_op is not None:
-            idx = [i for i, x in enumerate(xs) if 0 < abs(x) <= model_max and abs(x) >= 1e-30 or x == 0]
+            idx = [i for i, x in enumerate(xs) if 0 < abs(x) <= model_max and abs(x) >= model_min or x == 0]
             if idx:
                 rep = ctx.driver.call(model_op, xs=[core.rat(xs[i]) for i in idx])
                 exact = {i: fl(v) for i, v in zip(idx, rep["model"])}
@@ -1543,7 +1549,7 @@ class C18(Prop):
         gtol = GAMMA_REL + (SINGLE_BUDGET if ty_single(ty) else 0.0)
         impl, model, spec, sok, mok, feats = self.special(
             case, ctx, "gamma", run, math.gamma, lambda v, t: abs(v - t) <= gtol * abs(t), "c18.gamma",
-            model_rel=SINGLE_BUDGET if ty_single(ty) else 1e-10, model_max=1e3)
+            model_rel=SINGLE_BUDGET if ty_single(ty) else 1e-10, model_max=1e3, model_min=1e-310)
         xs = [float(x) for x in case["xs"]]
         # integer arguments, whatever type carries them: the Lean specification Gamma(n) = (n - 1)! (the model equals it
         # exactly: gammaApprox_nat) - no library gamma function involved
@@ -1903,7 +1909,9 @@ class C18(Prop):
             my = [unrat(v) for v in r2["y"]]
             a_, b_, x0 = Fraction(args[0]), Fraction(args[1]), axq[0]
             if my == [1] and a_ < x0 < b_ and x0 != 0 and out.shape == (1, 2):     # clear of the kinks: the weight is 1
-                impl["weights"], model["weights"] = [float(out[0, 1])], [1.0]
+                # y / y exactly, or y * (1 / y) within an ulp: size 1 is outside the property, a rounding is not a difference
+                w = float(out[0, 1])
+                impl["weights"], model["weights"] = [1.0 if abs(w - 1.0) <= 2.0 ** -50 else w], [1.0]
                 feats.add("kernel:size=1:triangular-weight")
         return outcome(impl, model, {}, spec_ok=True, hyp=False, features=feats)
 
